@@ -396,6 +396,10 @@ def s7(ctx):
                 ctx.violate(b.key, p, 'Timeout returned without a successful cancel_send_signal (the entry may still be in the wait list)')
             else:
                 c = canc_t[-1][2]
+                # the section is that of the cancel CALL (the guard may be a temporary released before the branch)
+                calls_ = [e for e in evs if e.name == 'CANCEL_SEND' and e.idx < c.idx]
+                if calls_:
+                    c = calls_[-1]
                 if c.sec is None or c.sec == regs[-1].sec:
                     ctx.violate(b.key, p, 'cancel_send_signal not evaluated in its own later critical section', at=c.at)
                 if wt_f and wt_f[0][2].idx > c.idx:
